@@ -75,7 +75,7 @@ pub fn arb_cfg(o: &HistOpts) -> BoxedStrategy<ClientCfg> {
     };
     let cred = prop_oneof![
         4 => Just(("user".to_string(), "secret-pass".to_string())),
-        1 => (arb_opaque(24), arb_opaque(24)),
+        2 => (arb_keytext(24), arb_keytext(24)),
     ];
     (reliable, rto, gran, rm, rc, mech, fp, max_tx, cred)
         .prop_map(|(reliable, rto_us, gran_us, rm, rc, mech, fingerprint, max_tx, (user, password))| ClientCfg {
